@@ -298,6 +298,36 @@ pub fn gen_spec(rng: &mut Rng) -> OptSpec {
     spec
 }
 
+/// Runs the bash stub's completion function in the sandbox for a line whose words carry shell
+/// metacharacters. `Some(true)`: typed text was executed (or the program was not called with
+/// exactly the typed words).
+pub fn bash_stub_executes_typed_text(stub: &str, scratch: &std::path::Path) -> Option<(bool, String)> {
+    let words = ["a$(canary)b", ";canary", "`canary`", "x y", ""];
+    let mut script = String::new();
+    script.push_str(stub);
+    script.push_str("\nmy-app() { rec CALL \"$CASE\" my-app \"$@\"; }\n");
+    script.push_str("COMP_WORDS=(my-app");
+    for w in words {
+        script.push_str(&format!(" '{}'", w));
+    }
+    script.push_str(")\nCOMP_CWORD=5\n_bpaf_dynamic_completion my-app\n");
+    let obs = run_sandbox(scratch, &[script])?;
+    let o = obs.first()?;
+    let expected: Vec<String> = std::iter::once("my-app".to_string())
+        .chain(std::iter::once("--bpaf-complete-rev=8".to_string()))
+        .chain(words.iter().map(|w| w.to_string()))
+        .collect();
+    let called_as_typed = o.calls.len() == 1 && o.calls[0] == expected;
+    let bad = o.canary > 0 || !called_as_typed;
+    Some((
+        bad,
+        format!(
+            "canary ran {} times; program calls: {:?}; not found: {:?}; stderr: {}",
+            o.canary, o.calls, o.notfound, o.stderr
+        ),
+    ))
+}
+
 /// The static completion stubs printed for `--bpaf-complete-style-*` exit the process by design,
 /// so they are observed through a child process: exit status 0, nothing on stderr, the program
 /// name embedded, and (bash/zsh) accepted by `bash -n`.
@@ -353,6 +383,26 @@ fn check_static_stubs(case: &mut Case, b: &Bench) {
                         ));
                     }
                 }
+            }
+        }
+        if problem.is_none() && style == "bash" {
+            let scratch = std::env::current_dir()
+                .unwrap_or_default()
+                .join(format!("stubbox-{}", std::process::id()));
+            match bash_stub_executes_typed_text(&text, &scratch) {
+                Some((true, what)) => {
+                    case.rep.violation(
+                        "static-stub:bash:executes-typed-text",
+                        "static-stub",
+                        case.index,
+                        J::obj()
+                            .set("style", style)
+                            .set("problem", what)
+                            .set("stub", clip(&text)),
+                    );
+                }
+                Some((false, _)) => case.rep.count("static-stub:bash:run-in-sandbox"),
+                None => case.rep.inconclusive("stub-sandbox-failed"),
             }
         }
         if let Some(p) = problem {
